@@ -98,6 +98,18 @@ CLAIMED["C10"] = {
     "assumptions": ["file loading and wall-clock builtins are the documented exceptions and are not compared outside the fake clock"],
 }
 
+CLAIMED["C08"] = {
+    "engine": "packages",
+    "level": "exploration",
+    "technique": "deterministic simulation of histories: seeded sequences of package operations (in-package, export, use-package, set, set!, defun, defmacro, qualified/unqualified references, nested load-string) evaluated through load and eval entry points in one long-lived runtime with host errors and panics injected at cooperative fault points; compared operation by operation with an executable reference model of the package registry",
+    "text": "Histories of 2-7 operations over four packages and a handful of names; loads nest, switch package and are aborted part-way by injected errors and host panics (swallowed or not). After every operation the value or error, the probe trace and the current package are compared with a 300-line reference model (snapshot import in export order stopping at the first unbound export, definition-time package of functions and macros, macro expansions resolved in the caller's package, package restored after loads and cross-package calls on success and failure, keywords and true/false unassignable), and a fixed inspection program reads every name from every package, qualified and unqualified, and calls every function and macro, in both the interpreter and the model; export lists are compared through the registry API. Seeded sampling; the pure-function part of C08 (what a single fault-free program evaluates to) is covered only as far as the generator reaches.",
+    "note": "Trusted: the reference model in sim/e4_packages.go as a faithful reading of docs/lang.md and the property text. Function and macro definitions inside the init expression of a let are not generated (closure capture of the let's own scope is a lexical-scoping question outside C08). Message texts of interpreter-raised errors are not compared, only error-ness, condition names of injected faults and the host-panic flag.",
+    "design_ref": "4/C08",
+    "rule": "case = history of load/eval operations over the restricted package grammar + fault plan; distinct_nontrivial counts distinct (probe traces, current package after each operation) hashes among histories in which an error occurred or a fault fired.",
+    "real": REAL, "stubs": STUBS,
+    "assumptions": ["values are unique integers so each read is attributable to one write", "four packages, four variable names, three function names, two macro names"],
+}
+
 NOT_APPLICABLE = {
     "C01": "pure function of the program text: no schedule, clock, fault or history in the statement; needs a definitional interpreter (differential testing), which is a different technique",
     "C02": "relation between two fault-free deterministic executions under two static configurations plus a height bound that is a function of the program; nothing for a simulator to schedule or inject (the TRO knob is still randomised inside C04-C06)",
@@ -106,7 +118,6 @@ NOT_APPLICABLE = {
     "C12": "law over a single input value (datum / source text); no schedule, clock, fault or history",
     "C13": "law over a single JSON value / document; no schedule, clock, fault or history",
     "C14": "law over schema x value; no schedule, clock, fault or history",
-    "C08": "a simulation target in DESIGN.md (history clauses); check not built yet at this commit",
     "C11": "a simulation target in DESIGN.md (history clauses); check not built yet at this commit",
     "C16": "text-to-text function of the source; no schedule, clock, fault or history",
     "C17": "program-equivalence between two fault-free evaluations; no schedule, clock, fault or history",
